@@ -579,6 +579,10 @@ def monitor(sent_tokens_by_step, frames_by_step, raw=False):
             elif t == 8:
                 if len(pl) != 4 or int.from_bytes(pl, "big") & 0x7fffffff == 0:
                     return "malformed WINDOW_UPDATE"
+    if open_block is not None:
+        # end of the scenario (the client read until the server went quiet): a header block is still open
+        return ("header block of stream %d never terminated: its last frame lacks END_HEADERS and no CONTINUATION "
+                "follows (RFC 9113 4.3, 6.10)" % open_block)
     if raw:
         return None
     if acks > n_settings:
